@@ -957,11 +957,23 @@ include = Spec(
 
 # ------------------------------------------------------------------ bounded stand-in: the real ssh as oracle
 ASSUMPTIONS += [
-    'not under contract: the shlex / "=" tokeniser front end of parse(), _include (glob, file system), the client '
-    '_set_tokens (socket, os) and the final percent-expansion loop of parse(); the tokeniser, first-value-wins '
-    'across blocks and Match-after-Hostname are sampled against the real `ssh -G` (bounded stand-in, not a proof)',
+    'not under contract: the shlex / "=" tokeniser front end of parse() and SSHConfig.load; the tokeniser (incl. fixed '
+    '"=" forms), Include, first-value-wins across blocks and Match-after-Hostname are sampled against the real '
+    '`ssh -G` (bounded stand-in, not a proof); keyword / expansion / block tables are checked as data lemmas (AST)',
     'pattern matching itself (pattern.py WildcardPatternList / HostPatternList) is an uninterpreted predicate',
     'Match exec: exit status is a function of the command text; ip_address() of a socket address does not raise',
+    '"could change the meaning of a path" is read as the language of the asyncssh unsafe-user advisory (.., leading ~ '
+    'or drive prefix, / or \\ anywhere, a complete ${...}); NOT in that language and therefore not claimed: the '
+    'names "." and "" (/keys/%u becomes the directory itself) and names containing "%" (harmless only if a value is '
+    'expanded once - see the expanded-once finding)',
+    '_match_host: two library facts are assumed as callee/external contracts - a pattern list applies the '
+    'positive/negative rule to its comma-separated parts (pattern.py _PatternList), and str.split(",") inverts '
+    '",".join when no part contains a comma; they only serve to relate the code to the per-argument ssh rule',
+    '_include: pathlib / glob / is_file are assumed (the files a pattern matches, in glob order); parse() of an '
+    'included file is an assumed havoc of the resolution state; client _set_tokens: socket.gethostname, '
+    'os.path.expanduser, os.getuid and sha1 are assumed functions, str.find uses the engine quantifier-free model',
+    'expand_val_term_stub restates the proved contract of _expand_val with the result as an explicit term (needed '
+    'by the map-comprehension model, which cannot use fresh result symbols)',
 ]
 
 
@@ -1011,26 +1023,44 @@ def remote_user(c):
     return z3.If(z3.And(P.is_py_str(u), z3.Length(P.py_s(u)) > 0), P.py_s(u), c.old('_local_user'))
 
 
-def client_token_table(c):
-    host = P.py_s(opt_get(c, 'Hostname', P.py_str(c.old('_orig_host'))))
-    port = str_of_py(opt_get(c, 'Port', P.py_int(22)))
-    user = remote_user(c)
-    table = [('h', host), ('n', c.old('_orig_host')), ('p', port), ('r', user), ('u', c.old('_local_user')),
-             ('l', LOCALHOST), ('C', sha1hex(utf8(z3.Concat(LOCALHOST, host, port, user)))),
-             ('i', str_of_py(P.py_int(UID)))]
+TOKEN_KEYS = ['h', 'n', 'p', 'r', 'u', 'l', 'L', 'C', 'i', 'd']
+
+
+def token_is(c, key, value):
+    n = c.newv('_tokens')
+    return z3.And(z3.Select(n.dom, S(key)), z3.Select(n.val, S(key)) == value)
+
+
+def tok_host(c):
+    return P.py_s(opt_get(c, 'Hostname', P.py_str(c.old('_orig_host'))))
+
+
+def tok_port(c):
+    return str_of_py(opt_get(c, 'Port', P.py_int(22)))
+
+
+def short_host_ok(c):
+    """%L: the local host name up to (not including) its first '.'"""
+    n = c.newv('_tokens')
+    short = z3.Select(n.val, S('L'))
+    return z3.And(z3.Select(n.dom, S('L')), z3.PrefixOf(short, LOCALHOST), z3.Not(z3.Contains(short, S('.'))),
+                  z3.Or(short == LOCALHOST, z3.SubString(LOCALHOST, z3.Length(short), 1) == S('.')))
+
+
+def home_token(c):
+    o, n = c.oldv('_tokens'), c.newv('_tokens')
+    return z3.If(HOMEDIR != S('~'), token_is(c, 'd', HOMEDIR),
+                 z3.And(z3.Select(n.dom, S('d')) == z3.Select(o.dom, S('d')),
+                        z3.Select(n.val, S('d')) == z3.Select(o.val, S('d'))))
+
+
+def other_tokens_kept(c):
+    """nothing but the documented letters changes (e.g. '%%' stays)"""
     o, n = c.oldv('_tokens'), c.newv('_tokens')
     dom, val = o.dom, o.val
-    for k, v in table:
-        dom, val = z3.Store(dom, S(k), True), z3.Store(val, S(k), v)
-    # %L: the local host name up to (not including) its first '.'
-    short = z3.Select(n.val, S('L'))
-    short_ok = z3.And(z3.PrefixOf(short, LOCALHOST), z3.Not(z3.Contains(short, S('.'))),
-                      z3.Or(short == LOCALHOST, z3.SubString(LOCALHOST, z3.Length(short), 1) == S('.')))
-    dom, val = z3.Store(dom, S('L'), True), z3.Store(val, S('L'), short)
-    # %d only when a home directory is known
-    dom = z3.If(HOMEDIR != S('~'), z3.Store(dom, S('d'), True), dom)
-    val = z3.If(HOMEDIR != S('~'), z3.Store(val, S('d'), HOMEDIR), val)
-    return z3.And(n.dom == dom, n.val == val, short_ok)
+    for k in TOKEN_KEYS:
+        dom, val = z3.Store(dom, S(k), z3.Select(n.dom, S(k))), z3.Store(val, S(k), z3.Select(n.val, S(k)))
+    return z3.And(n.dom == dom, n.val == val)
 
 
 def client_token_inv(c):
@@ -1044,8 +1074,19 @@ def client_token_inv(c):
 
 client_set_tokens = Spec(
     PROP, 'config', 'SSHClientConfig._set_tokens', self_class='SSHClientConfig', classes=TOK_CLASSES,
-    stubs=dict(TOKEN_STUBS), requires=client_token_inv,
-    ensures=[('token-table-as-documented', client_token_table), ('options-kept', options_kept),
+    stubs=dict(TOKEN_STUBS), requires=client_token_inv, globals={'os': VTag('class:os')}, tags=['find-qf'],
+    ensures=[('%h-is-the-remote-host', lambda c: token_is(c, 'h', tok_host(c))),
+             ('%n-is-the-original-host', lambda c: token_is(c, 'n', c.old('_orig_host'))),
+             ('%p-is-the-remote-port', lambda c: token_is(c, 'p', tok_port(c))),
+             ('%r-is-the-remote-user', lambda c: token_is(c, 'r', remote_user(c))),
+             ('%u-is-the-local-user', lambda c: token_is(c, 'u', c.old('_local_user'))),
+             ('%l-is-the-local-host', lambda c: token_is(c, 'l', LOCALHOST)),
+             ('%L-is-the-short-local-host', short_host_ok),
+             ('%C-is-the-hash-of-local-host-host-port-user', lambda c: token_is(
+                 c, 'C', sha1hex(utf8(z3.Concat(LOCALHOST, tok_host(c), tok_port(c), remote_user(c)))))),
+             ('%i-is-the-local-uid', lambda c: token_is(c, 'i', str_of_py(P.py_int(UID)))),
+             ('%d-is-the-home-directory-when-known', home_token),
+             ('other-tokens-kept', other_tokens_kept), ('options-kept', options_kept),
              ('matching-kept', lambda c: c.new('_matching') == c.old('_matching'))])
 client_set_tokens.no_replay = True       # reads the real host name / uid / home directory
 
